@@ -1381,7 +1381,7 @@ def run_sched(driver_cmd: List[str], cases: List[str], workdir: str, tag: str, m
 def check_C14(tier: str, seed: int) -> int:
     v = Verdict("C14", tier, seed, "proof")
     ob = vplib.check_obligations("C14", expected=["C14_schedule", "C14_fault_offset", "C14_fault_event"])
-    vplib.build_harness(["release"])
+    vplib.build_harness(["release", "dev"])
     w = Work("C14")
     try:
         rng = random.Random(seed)
@@ -1427,6 +1427,30 @@ def check_C14(tier: str, seed: int) -> int:
         mb = run_sched([vplib.MODEL_DRIVER, "sched"], lines, w.dir, "msched", True)
         plain: Dict[str, Tuple[object, object]] = {}
         corr_fail, direct_fail = [], []
+        # the same schedules and faults in the dev build (debug assertions, overflow checks): an error path that trips an
+        # assertion there is a panic instead of the returned error.  Quick tier: the bases of at most 700 bytes.
+        size_of = {name: len(data) for name, data, _ in bases}
+        dsel = [i for i, c in enumerate(cases) if size_of[c[1]] <= (700 if tier == "quick" else 6000)]
+        db = run_sched([vplib.impl_driver("dev"), "sched"], [lines[i] for i in dsel], w.dir, "dsched", False)
+        for i, bd in zip(dsel, db):
+            if outcome_class(outcome(bd)) == "panic":
+                direct_fail.append({"what": "panic / lost worker under a reader schedule in the dev build", "case": lines[i], "comments": bd[1][:3] if bd else None})
+            elif ib[i] is not None and bd[0] != ib[i][0]:
+                direct_fail.append({"what": "dev and release builds disagree under a reader schedule", "case": lines[i], "dev": bd[0][:3], "release": ib[i][0][:3]})
+        # a file of more than 64 KiB delivered one byte at a time, with and without an Interrupted result before every read
+        # (more than 65536 transient interruptions in one load): implementation only, against its own plain read
+        bigs = ase.Sprite(width=160, height=160, frames=[ase.Frame(chunks=[
+            ase.LayerChunk(flags=1, blend=0, opacity=255, name="big"),
+            ase.CelChunk(layer=0, w=160, h=160, opacity=255, ctype_cel=0,
+                         pixels=ase.rgba_bytes([((x * 7) & 255, (x >> 8) & 255, (x * 13) & 255, 255) for x in range(160 * 160)]))])])
+        bigp = w.put(ase.serialize(bigs))
+        biglines = ["%s plain" % bigp, "%s one" % bigp, "%s intr %d 1" % (bigp, rng.randrange(1, 2 ** 32)), "%s chunks %d 1" % (bigp, rng.randrange(1, 2 ** 32)),
+                    "%s intr %d 3" % (bigp, rng.randrange(1, 2 ** 32))]
+        bb = run_sched([vplib.impl_driver("release"), "sched"], biglines, w.dir, "bsched", False)
+        for ln, b in zip(biglines[1:], bb[1:]):
+            if b is None or bb[0] is None or outcome(bb[0]) != 0 or b[0] != bb[0][0]:
+                direct_fail.append({"what": "result depends on how the reader delivers the bytes", "case": ln + " (a %d-byte file)" % len(ase.serialize(bigs)),
+                                    "got": b[0][:3] if b else None, "plain": bb[0][0][:3] if bb[0] else None})
         kinds = Counter()
         for i, (line, name, kind, args) in enumerate(cases):
             kinds[kind] += 1
@@ -2612,6 +2636,62 @@ def c15_switches(sp: ase.Sprite, rng: random.Random) -> List[Tuple[str, ase.Spri
     return out
 
 
+def c15_value_sweeps(sp: ase.Sprite, rng: random.Random, tier: str) -> List[Tuple[str, bytes]]:
+    """the VALUE dimension of the feature switches: for the header's colour depth and for the first occurrence of each chunk
+    field (layer type, blend mode, cel type, bits per tile, animation direction) every value of a dense set - all values up
+    to 1023 (all 256 for a byte field), the powers of two and their neighbours, random values; the whole 16-bit range of the
+    colour depth in the thorough tier - that the library does not support, written into the field of an otherwise unchanged
+    file.  The field is located by serialising the sprite with two unsupported values and comparing the bytes."""
+    import copy
+    dense = set(range(1024)) | {(1 << k) + d for k in range(16) for d in (-1, 0, 1)} | {rng.randrange(65536) for _ in range(200)}
+    dense = sorted(x for x in dense if 0 <= x <= 65535)
+    out = []
+
+    def sweep(desc, setter, valid, width, values):
+        a, b = copy.deepcopy(sp), copy.deepcopy(sp)
+        va, vb = (0x5555, 0xAAAA) if width == 2 else (0x55, 0xAA)
+        try:
+            setter(a, va); setter(b, vb)
+            da, db = ase.serialize(a), ase.serialize(b)
+        except Exception:
+            return
+        diff = [i for i in range(min(len(da), len(db))) if da[i] != db[i]]
+        if len(da) != len(db) or len(diff) != width or diff[-1] - diff[0] != width - 1:
+            return
+        off = diff[0]
+        for val in values:
+            if val in valid or (width == 1 and val > 255):
+                continue
+            d = bytearray(da)
+            d[off:off + width] = val.to_bytes(width, "little")
+            out.append(("%s = %d (value sweep)" % (desc, val), bytes(d)))
+    # colour depth: bytes 12..13 of the header; 8, 16 and 32 are the supported values
+    base = ase.serialize(sp)
+    for val in (range(65536) if tier != "quick" else dense):
+        if val not in (8, 16, 32):
+            d = bytearray(base)
+            d[12:14] = val.to_bytes(2, "little")
+            out.append(("colour depth = %d (value sweep)" % val, bytes(d)))
+    seen = set()
+    for fi, fr in enumerate(sp.frames):
+        for ci, ch in enumerate(fr.chunks):
+            if isinstance(ch, ase.LayerChunk) and "layer" not in seen:
+                seen.add("layer")
+                sweep("layer type at chunk %d" % ci, lambda c, x, fi=fi, ci=ci: setattr(c.frames[fi].chunks[ci], "ltype", x), {0, 1, 2}, 2, dense)
+                sweep("blend mode at chunk %d" % ci, lambda c, x, fi=fi, ci=ci: setattr(c.frames[fi].chunks[ci], "blend", x), set(range(19)), 2, dense)
+            elif isinstance(ch, ase.CelChunk):
+                if "cel" not in seen:
+                    seen.add("cel")
+                    sweep("cel type at frame %d chunk %d" % (fi, ci), lambda c, x, fi=fi, ci=ci: setattr(c.frames[fi].chunks[ci], "ctype_cel", x), {0, 1, 2, 3}, 2, dense)
+                if ch.ctype_cel == 3 and "bits" not in seen:
+                    seen.add("bits")
+                    sweep("bits per tile at frame %d chunk %d" % (fi, ci), lambda c, x, fi=fi, ci=ci: setattr(c.frames[fi].chunks[ci], "tm_bits", x), {32}, 2, dense)
+            elif isinstance(ch, ase.TagsChunk) and ch.tags and "tag" not in seen:
+                seen.add("tag")
+                sweep("animation direction at tag 0", lambda c, x, fi=fi, ci=ci: setattr(c.frames[fi].chunks[ci].tags[0], "direction", x), {0, 1, 2}, 1, range(256))
+    return out
+
+
 def check_C15(tier: str, seed: int) -> int:
     v = Verdict("C15", tier, seed, "proof")
     ob = vplib.check_obligations("C15", expected=["C15_propagation", "C15_pixel_ratio", "C15_color_depth", "C15_layer_type", "C15_blend_mode", "C15_cel_type", "C15_bits_per_tile", "C15_anim_direction", "C15_icc_profile", "C15_fixed_gamma", "C15_external_tileset"], extra_files=["C15_e2e"])
@@ -2636,6 +2716,10 @@ def check_C15(tier: str, seed: int) -> int:
                     continue      # e.g. a depth for which the builder cannot lay out pixels
                 cases.append((desc, data, True))
                 feats[desc.split(" at ")[0].rstrip("0123456789: ").strip()] += 1
+            if nbase in (1, 2, 3) or (tier != "quick" and nbase % 40 == 0):
+                for desc, data in c15_value_sweeps(sp, rng, "quick" if nbase > 3 else tier):
+                    cases.append((desc, data, True))
+                    feats["value sweep: " + desc.split(" =")[0].split(" at ")[0]] += 1
         paths = [w.put(c[1]) for c in cases]
         ib = vplib.impl_observe("release", paths, w.dir, 0)
         mb = vplib.model_observe(paths, w.dir, 0)
@@ -2652,7 +2736,9 @@ def check_C15(tier: str, seed: int) -> int:
             "evaluations": len(cases), "distinct_nontrivial": len(cases) - nbase,
             "rule": "%d well-formed sprites; for each, every unsupported feature switched on at every position where it can occur (pixel ratio, colour depth, "
                     "layer type and blend mode of every layer, cel type of every cel, bits per tile of every tilemap cel, animation direction of every tag, ICC "
-                    "profile / fixed gamma chunks at the start, middle and end of every frame, every tileset without embedded pixels); the load must return an error; "
+                    "profile / fixed gamma chunks at the start, middle and end of every frame, every tileset without embedded pixels); on three of the sprites also the "
+                    "value dimension: every unsupported value of a dense set (0..1023, powers of two and neighbours, random; the whole 16-bit range of the colour "
+                    "depth in the thorough tier) in the colour depth, layer type, blend mode, cel type, bits per tile, animation direction fields; the load must return an error; "
                     "non-trivial = every switched file" % nbase,
             "samples": [c[0] for c in cases[1:4]], "features": dict(feats),
             "correspondence_disagreements": len(corr_fail), "direct_failures": len(direct_fail)})
